@@ -7,6 +7,7 @@ RAC = {
     'remove_overlaps': dict(crate=CORE, attach=S + 'lib.rs', file='overlaps.rs', test='rac_remove_overlaps', function='remove_overlaps'),
     'edit_distance': dict(crate=CORE, attach=S + 'edit_distance.rs', file='edit_distance.rs', test='rac_edit_distance', function='edit_distance_min_alloc'),
     'lexers': dict(crate=CORE, attach=S + 'lexing/mod.rs', file='lexing.rs', test='rac_lexers', function='lex_*'),
+    'lexer_literals': dict(crate=CORE, attach=S + 'lexing/mod.rs', file='lexing.rs', test='rac_lexer_literals', needs_lex_literals=True, function='lex_* / lex_token / PlainEnglish::parse on literals harvested from lexing/*.rs'),
     'plain_english_tiles': dict(crate=CORE, attach=S + 'lexing/mod.rs', file='lexing.rs', test='rac_plain_english_tiles', function='PlainEnglish::parse'),
     'pattern_contract': dict(crate=CORE, attach=S + 'linting/pattern_linter.rs', file='patterns.rs', test='rac_pattern_contract', function='Pattern::matches'),
     'merged_union': dict(crate=CORE, attach=S + 'spell/merged_dictionary.rs', file='merged_dictionary.rs', test='rac_merged_union', function='MergedDictionary'),
@@ -62,7 +63,7 @@ for _f in ('contains_word', 'contains_exact_word', 'get_correct_capitalization_o
 # (extraction anchor lost, construct unsupported after a rewrite): a concrete failing input found on
 # the real code is still a violation; no hit leaves the run undecided (exit 2).
 for _f in ('lex_escaped', 'lex_uchar', 'lex_xchar', 'lex_xchar_string', 'is_xchar_string', 'is_uchar_plus_string', 'lex_login', 'lex_url', 'lex_hostname_token', 'lex_hostname', 'lex_email_address'):
-    RAC_FOR_FUNCTION[_f] = ['url_scanner', 'lexers']
+    RAC_FOR_FUNCTION[_f] = ['url_scanner', 'lexers', 'lexer_literals']
 
 RAC_FOR_FUNCTION['Mask::push_allowed'] = ['mask_push']
 RAC_FOR_FUNCTION['Mask::new_blank'] = ['mask_push']
@@ -95,11 +96,11 @@ UNIT_RAC = {
     'overlaps32': ['remove_overlaps', 'remove_indices'],
     'span': [],
     'document': ['document_tiles', 'condense_indices'],
-    'url': ['url_scanner', 'lexers'],
+    'url': ['url_scanner', 'lexers', 'lexer_literals'],
     'suggestion': ['suggestion_apply'],
     'overlaps': ['remove_overlaps', 'remove_indices'],
     'edit_distance': ['edit_distance'],
-    'lexing': ['lexers', 'plain_english_tiles'],
+    'lexing': ['lexers', 'plain_english_tiles', 'lexer_literals'],
     'patterns': ['pattern_contract'],
     'merged_dictionary': ['merged_union'],
 }
